@@ -377,3 +377,18 @@ def finite_domains():
     t.append(T('fd_conde_domains', [FRESH(['x'], EQ(q, x), OP('conde', INFDR(x, 0, 1), INFD(x, [1, 5])), REL('ltefd', P(0), x))], 'multiset', 40))
     t.append(T('fd_list_query', [FRESH(['x', 'y'], EQ(q, L(L(x), y)), INFDR(L(x, y), 0, 1), REL('diseqfd', x, y))], 'multiset', 40))
     return t
+
+
+def user_hooks():
+    """Programs run with the counting User type; `probe(b)` binds b to [with - take - |store|, #process_extension calls, size of the last extension]."""
+    t = []
+    b1, b2, b3 = V('b1'), V('b2'), V('b3')
+    pr = lambda v: REL('probe', v)
+    U = dict(user='CntUser')
+    t.append(T('hooks_diseq_lifecycle', [FRESH(['x', 'y', 'b1', 'b2', 'b3'], EQ(q, L(b1, b2, b3)), NE(x, P(0)), pr(b1), NE(L(x, y), L(P(0), P(1))), pr(b2), EQ(x, P(2)), pr(b3))], 'multiset', **U))
+    t.append(T('hooks_diseq_weaker_first', [FRESH(['x', 'y', 'b1', 'b2', 'b3'], EQ(q, L(b1, b2, b3)), NE(L(x, y), L(P(0), P(1))), pr(b1), NE(x, P(0)), pr(b2), EQ(y, P(2)), pr(b3))], 'multiset', **U))
+    t.append(T('hooks_diseq_dropped', [FRESH(['x', 'b1', 'b2'], EQ(q, L(b1, b2)), NE(x, P(0)), NE(x, P(1)), pr(b1), EQ(x, P(2)), pr(b2))], 'multiset', **U))
+    t.append(T('hooks_extension_sizes', [FRESH(['x', 'y', 'b1', 'b2', 'b3'], EQ(q, L(b1, b2, b3)), EQ(L(x, y), L(P(0), P(1))), pr(b1), EQ(x, P(2)), pr(b2), EQ(L(y, x), L(P(1), P(0))), pr(b3))], 'multiset', **U))
+    t.append(T('hooks_extension_branches', [FRESH(['x', 'b1', 'b2'], EQ(q, L(x, b1, b2)), OP('conde', EQ(x, P(0)), EQ(x, P(1))), pr(b1), EQ(x, P(0)), pr(b2))], 'multiset', **U))
+    t.append(T('hooks_fd_cascade', [FRESH(['x', 'y', 'z', 'b1', 'b2'], EQ(q, L(b1, b2)), INFD(L(x, y, z), [1, 2]), REL('diseqfd', x, y), REL('diseqfd', x, z), pr(b1), EQ(x, N(1)), pr(b2))], 'multiset', **U))
+    return t
